@@ -22,7 +22,7 @@ const CONTEXTS: &[(&str, usize)] = &[
     ("if □ { 1 } else { 2 };", 0),
     ("match □ { 1 => 1, _ => 2 };", 0),
     ("(□) && 1;", 0),
-    ("0 || (□);", 1),
+    ("0 || (□);", 0),
     ("1 + (□);", 1),
     ("(□) + 1;", 0),
     ("[□];", 0),
@@ -92,13 +92,18 @@ pub struct P07 {
     tier: Tier,
 }
 
-fn pool_programs() -> Vec<String> {
+fn pool_programs(tier: Tier) -> Vec<String> {
     let pool = crate::p02::pool();
     let mut v = vec![];
     for a in 0..pool.len() {
         v.push(program_src(&crate::progcmp::with_obs(vec![pool[a].clone()])));
         for b in 0..pool.len() {
             v.push(program_src(&crate::progcmp::with_obs(vec![pool[a].clone(), pool[b].clone()])));
+            if tier == Tier::Thorough {
+                for c in 0..pool.len() {
+                    v.push(program_src(&crate::progcmp::with_obs(vec![pool[a].clone(), pool[b].clone(), pool[c].clone()])));
+                }
+            }
         }
     }
     v
@@ -126,13 +131,33 @@ impl P07 {
                 }
             }
         }
+        // F1x (thorough): two nested operand contexts around the jump; the pending operands add up
+        if tier == Tier::Thorough {
+            for (outer, k1) in CONTEXTS {
+                for (inner, k2) in CONTEXTS {
+                    if inner.starts_with("let ") {
+                        continue; // not an expression
+                    }
+                    let inner_expr = format!("({})", inner.trim_end_matches(';'));
+                    for fill in FILLERS {
+                        for (pre, suf, jumps) in LOOPS {
+                            for j in jumps.iter() {
+                                let filled = fill.replace("J", &format!("{};", j));
+                                let stmt = outer.replace("□", &inner_expr.replace("□", &filled));
+                                cases.push(Case { family: "F1x jump-in-nested-operand", text: format!("{}{}{}{}\nx;", PRELUDE, pre, stmt, suf), pending: *k1 + *k2, looping: true });
+                            }
+                        }
+                    }
+                }
+            }
+        }
         // F3: looped expression statements
         for e in LOOPED {
             cases.push(Case { family: "F3 looped-statement", text: format!("{}while i < #N# {{ i = i + 1; {} }}\nx;", PRELUDE, e), pending: 0, looping: true });
             cases.push(Case { family: "F3 looped-statement-in-fn", text: format!("{}fn lp() {{ let i = 0; while i < #N# {{ i = i + 1; {} }} }} lp();\nx;", PRELUDE, e), pending: 0, looping: true });
         }
         // F2: statement sequences from the C02 pool (no jumps in operand positions)
-        for t in pool_programs() {
+        for t in pool_programs(tier) {
             cases.push(Case { family: "F2 pool-sequence", text: t, pending: 0, looping: false });
         }
         P07 { cases, tier }
@@ -281,7 +306,7 @@ impl Property for P07 {
         CaseOut::pass(class).with_counts(states, transitions, steps + traces)
     }
     fn rule(&self) -> String {
-        format!("F1: {} statement contexts keeping 0-3 operands pending x {} jump-carrying fillers x 4 loop shapes (while, loop, two nested labelled loops) x every usable break/continue (plain and labelled) x 3 statement positions; F3: {} kinds of expression statements looped at top level and inside a function; F2: all sequences of <=2 statements of the C02 pool. Each program is compiled by the real compiler; the bytecode of main and of every function is explored as a graph over (function, ip, height) with both branch edges taken (fixpoint = every iteration count); invariants: one height per ip, height >= 0, jumps land on instruction boundaries, height 0 at every top-level statement boundary (offsets obtained by compiling each statement prefix). Every program is then executed on the real VM with the trace hook and each executed (code object, ip, sp) must equal the model's height; looping programs are re-run with {} iterations and must not report a stack overflow", CONTEXTS.len(), FILLERS.len(), LOOPED.len(), self.tier.pick(5000, 12000))
+        format!("F1: {} statement contexts keeping 0-3 operands pending x {} jump-carrying fillers x 4 loop shapes (while, loop, two nested labelled loops) x every usable break/continue (plain and labelled) x 3 statement positions; F3: {} kinds of expression statements looped at top level and inside a function; F2: all sequences of <=2 (thorough 3) statements of the C02 pool; thorough adds F1x: every ordered pair of nested operand contexts around every filler, loop shape and jump (pending operands add up). Each program is compiled by the real compiler; the bytecode of main and of every function is explored as a graph over (function, ip, height) with both branch edges taken (fixpoint = every iteration count); invariants: one height per ip, height >= 0, jumps land on instruction boundaries, height 0 at every top-level statement boundary (offsets obtained by compiling each statement prefix). Every program is then executed on the real VM with the trace hook and each executed (code object, ip, sp) must equal the model's height; looping programs are re-run with {} iterations and must not report a stack overflow", CONTEXTS.len(), FILLERS.len(), LOOPED.len(), self.tier.pick(5000, 12000))
     }
     fn bounds(&self) -> Value {
         json!({"programs": self.cases.len(), "contexts": CONTEXTS.len(), "fillers": FILLERS.len(), "looped_statements": LOOPED.len()})
